@@ -123,7 +123,14 @@ func (h *H) boundaryInts() []*big.Int {
 }
 
 func (h *H) randScalarInt() *big.Int {
-	switch h.rng.Intn(6) {
+	switch h.rng.Intn(7) {
+	case 6: // around a constant some word-by-word comparison reads: N, P, (N-1)/2, P-N, in 32- and 26-bit digits
+		cs := []*big.Int{curveN, curveP, new(big.Int).Rsh(curveN, 1), new(big.Int).Sub(curveP, curveN)}
+		c := cs[h.rng.Intn(len(cs))]
+		if h.rng.Intn(2) == 0 {
+			return h.chainWalk(c, 32, 8)
+		}
+		return h.chainWalk(c, 26, 10)
 	case 0:
 		bs := h.boundaryInts()
 		return new(big.Int).Set(bs[h.rng.Intn(len(bs))])
